@@ -32,7 +32,7 @@ def design(ctx):
     """TLC on the spec. -> (coverage dict, total distinct, total generated)"""
     af.locked_subdir(ctx)
     w = ctx.pick(4, 8)
-    any_steps = ctx.pick(8, 12)
+    any_steps = ctx.pick(8, 11)     # K=12: 114 264 distinct / 1 066 732 generated also passes (measured, notes/C06.md)
     any_cfg = _cfg_with(ctx, "AtomicFile_mc_any.cfg", "AtomicFile_mc_any_fit.cfg",
                         [("AnyMaxSteps = 8", "AnyMaxSteps = %d" % any_steps)])
     wr_chunks = ctx.pick(3, 5)
@@ -42,7 +42,7 @@ def design(ctx):
         ("writer", lambda: tlc.run(ctx, af.MODULE, "AtomicFile_mc_fit.cfg", workers=2, coverage=True, timeout=900,
                                    extra_files=[wr_cfg], name="mc_writer")),
         ("any", lambda: tlc.run(ctx, af.MODULE, "AtomicFile_mc_any_fit.cfg", workers=w, coverage=True,
-                                timeout=ctx.pick(900, 2400), extra_files=[any_cfg], name="mc_any")),
+                                timeout=ctx.pick(900, 3000), extra_files=[any_cfg], name="mc_any")),
         ("any_neg", lambda: tlc.run(ctx, af.MODULE, "AtomicFile_mc_any_neg.cfg", workers=1, timeout=600, name="mc_any_neg")),
         ("any_live", lambda: tlc.run(ctx, af.MODULE, "AtomicFile_mc_any_live.cfg", workers=1, timeout=600, name="mc_any_live")),
         ("matrix", lambda: tlc.run(ctx, af.MODULE, "AtomicFile_mc_matrix.cfg", workers=1, timeout=600, name="mc_matrix",
